@@ -141,6 +141,10 @@ func deepCopyN(v value, norm bool) value {
 	return v
 }
 
+type finalizerRec struct{ obj, fin iface }
+
+var finalizers []finalizerRec
+
 func errorIface() *types.Interface {
 	return types.Universe.Lookup("error").Type().Underlying().(*types.Interface)
 }
@@ -175,7 +179,32 @@ func put(prefix string, v value) value {
 
 func init() {
 	H := Hooks
-	H["runtime.SetFinalizer"] = func(fr *frame, a []value) value { return nil }
+	// Finalizers are recorded, not run: there is no garbage collector.  A
+	// harness that has dropped every handle whose finalizer could object calls
+	// symRunFinalizers(), which runs all recorded finalizers (what a GC cycle
+	// would do to the unreachable ones).
+	H["runtime.SetFinalizer"] = func(fr *frame, a []value) value {
+		obj, fin := a[0].(iface), a[1].(iface)
+		for i, f := range finalizers {
+			if f.obj.v == obj.v {
+				finalizers = append(finalizers[:i], finalizers[i+1:]...)
+				break
+			}
+		}
+		if fin.t != nil {
+			finalizers = append(finalizers, finalizerRec{obj, fin})
+		}
+		return nil
+	}
+	Intrinsics["symRunFinalizers"] = func(fr *frame, a []value) value {
+		fs := finalizers
+		finalizers = nil
+		for _, f := range fs {
+			call(fr.i, fr, token.NoPos, f.fin.v, []value{f.obj.v})
+		}
+		return nil
+	}
+	pathResets = append(pathResets, func() { finalizers = nil })
 	H["runtime.KeepAlive"] = func(fr *frame, a []value) value { return nil }
 	// rand.Shuffle performs its swaps with decided indices: every permutation
 	// is a path (Fisher-Yates with symChoice).
